@@ -96,6 +96,18 @@ Fixpoint pweights (pw : list T) (ws : list (list T)) : list T :=
 Definition offset (ws : list (list T)) (i : nat) : nat := length (concat (firstn i ws)).
 Definition total (ws : list (list T)) : nat := length (concat ws).
 
+(* component i of a flat product-space element; overwrite component i *)
+Definition block (ws : list (list T)) (i : nat) (x : list T) : list T :=
+  firstn (length (nth i ws [])) (skipn (offset ws i) x).
+Definition set_block (ws : list (list T)) (i : nat) (b out : list T) : list T :=
+  firstn (offset ws i) out ++ b ++ skipn (offset ws i + length (nth i ws [])) out.
+(* out[index] = y for an index list: the parts of y are ASSIGNED to the listed components, in order *)
+Fixpoint put_blocks (ws : list (list T)) (idxs : list nat) (y out : list T) : list T :=
+  match idxs with
+  | [] => out
+  | i :: r => let n := length (nth i ws []) in put_blocks ws r (skipn n y) (set_block ws i (firstn n y) out)
+  end.
+
 (* ------------------------------------------------------------------ leaves *)
 Inductive leaf :=
 | LScaling (w : list T) (s : T)                       (* ScalingOperator / IdentityOperator *)
@@ -111,6 +123,8 @@ Inductive leaf :=
 | LUnflatten (wr : list T) (perm : list nat) (cv : T) (* FlatteningOperator.inverse *)
 | LProj (ws : list (list T)) (pw : list T) (i : nat)  (* ComponentProjection *)
 | LProjAdj (ws : list (list T)) (pw : list T) (i : nat)
+| LProjM (ws : list (list T)) (pw : list T) (idxs : list nat)     (* ComponentProjection with a slice / list index *)
+| LProjMAdj (ws : list (list T)) (pw : list T) (idxs : list nat)
 | LPtInner (wb pw : list T) (g : list (list T)) (ow : list T)     (* PointwiseInner *)
 | LPtInnerAdj (wb pw : list T) (g : list (list T)) (ow : list T)  (* PointwiseInnerAdjoint *)
 (* ResizingOperator (pad_const = 0) and the operator it returns as adjoint: resize_array along axis 0, 1, ...
@@ -134,8 +148,9 @@ Definition leaf_dom (l : leaf) : list T :=
   | LZero wd _ | LMatrix wd _ _ | LMatrixAx wd _ _ _ _ | LSampling wd _ _ _ | LFlatten wd _ _ => wd
   | LWSum _ idx _ _ => ones (length idx)
   | LUnflatten _ perm _ => ones (length perm)
-  | LProj ws pw _ => pweights pw ws
+  | LProj ws pw _ | LProjM ws pw _ => pweights pw ws
   | LProjAdj ws _ i => nth i ws []
+  | LProjMAdj ws _ idxs => concat (map (fun i => nth i ws []) idxs)
   | LPtInner wb pw _ _ => pweights pw (map (fun _ => wb) pw)
   | LPtInnerAdj wb _ _ _ => wb
   | LPDeriv wd _ _ _ _ _ _ | LGrad wd _ _ _ _ _ | LDiv wd _ _ _ _ _ | LLap wd _ _ _ _ => wd
@@ -151,7 +166,8 @@ Definition leaf_ran (l : leaf) : list T :=
   | LSampling _ idx _ _ => ones (length idx)
   | LFlatten _ perm _ => ones (length perm)
   | LProj ws _ i => nth i ws []
-  | LProjAdj ws pw _ => pweights pw ws
+  | LProjM ws _ idxs => concat (map (fun i => nth i ws []) idxs)
+  | LProjAdj ws pw _ | LProjMAdj ws pw _ => pweights pw ws
   | LPtInner wb _ _ _ => wb
   | LPtInnerAdj wb pw _ _ => pweights pw (map (fun _ => wb) pw)
   | LPDeriv _ wr _ _ _ _ _ | LGrad _ wr _ _ _ _ | LDiv _ wr _ _ _ _ | LLap _ wr _ _ _ => wr
@@ -209,6 +225,8 @@ Definition eval_leaf (l : leaf) (x : list T) : list T :=
   | LUnflatten wr perm _ => scatter (length wr) perm x
   | LProj ws _ i => firstn (length (nth i ws [])) (skipn (offset ws i) x)
   | LProjAdj ws _ i => zeros (offset ws i) ++ x ++ zeros (total ws - offset ws i - length (nth i ws []))
+  | LProjM ws _ idxs => concat (map (fun i => block ws i x) idxs)
+  | LProjMAdj ws _ idxs => put_blocks ws idxs x (zeros (total ws))
   | LPtInner wb _ g ow => ptinner (length wb) g ow x
   | LPtInnerAdj _ pw g ow => ptinner_adj g pw ow x
   | LResize _ _ rm ishape oshape offs =>
@@ -317,6 +335,8 @@ Definition leaf_adjoint (l : leaf) : oexpr :=
   | LUnflatten wr perm cv => LScal cv (Leaf (LFlatten wr perm cv))
   | LProj ws pw i => Leaf (LProjAdj ws pw i)
   | LProjAdj ws pw i => Leaf (LProj ws pw i)
+  | LProjM ws pw idxs => Leaf (LProjMAdj ws pw idxs)
+  | LProjMAdj ws pw idxs => Leaf (LProjM ws pw idxs)
   | LPtInner wb pw g ow => Leaf (LPtInnerAdj wb pw g ow)
   | LPtInnerAdj wb pw g ow => Leaf (LPtInner wb pw g ow)
   | LResize wd wr rm ishape oshape offs => Leaf (LResizeAdj wr wd rm ishape oshape offs)
@@ -376,6 +396,25 @@ Fixpoint wfb (e : oexpr) : bool :=
   | Bcast l => forallb wfb l && negb (Nat.eqb (length l) 0)
                && forallb (fun a => veqb (dom a) (match l with a0 :: _ => dom a0 | [] => [] end)) l
   | Diag l => forallb wfb l
+  end.
+
+(* every divisor occurring in the evaluation of a leaf or in its returned adjoint is non-zero
+   (premise of the transfer theorems of C05/Transfer*.v; evaluated on every correspondence case) *)
+Definition nzb (a : T) : bool := negb (a =? nzero).
+Definition ldivb (l : leaf) : bool :=
+  match l with
+  | LSampling _ _ _ cv | LWSum _ _ _ cv | LFlatten _ _ cv | LUnflatten _ _ cv => nzb cv
+  | LPtInner _ pw _ _ | LPtInnerAdj _ pw _ _ => forallb nzb pw
+  | LPDeriv _ _ _ _ _ _ dx => nzb dx
+  | LGrad _ _ _ _ _ dxs | LDiv _ _ _ _ _ dxs | LLap _ _ _ _ dxs => forallb nzb dxs
+  | _ => true
+  end.
+Fixpoint divsb (e : oexpr) : bool :=
+  match e with
+  | Leaf l => ldivb l
+  | Sum a b | Comp a b => divsb a && divsb b
+  | LScal _ a | RScal a _ | LVec _ a | RVec a _ | FLVec _ _ a => divsb a
+  | Reduce l | Bcast l | Diag l => forallb divsb l
   end.
 
 (* the unique adjoint w.r.t. the weights, built from the unweighted one:
